@@ -32,7 +32,7 @@ import os
 import re
 import vlib
 
-REPO_HAS_D3_FIX = False
+REPO_HAS_D3_FIX = True
 
 FINISH = dict(rule='exhaustive TLC model checking of both APBP directions (2 channels, data {1,2}, 2 semaphore '
                    'bits) + TLC trace validation of random facade/MMIO histories on a real Teakra instance + '
